@@ -73,7 +73,9 @@ CLAIMS["C03"] = dict(
         "are the LEAST set closed under the nullability equations, hence independent of the order of the rules. "
         "Instance lemmas re-proved each run: the extracted table is monotone, total and well-formed (a visit_* method "
         "that is never dispatched, as visit_LookAhead was, fails it). Correspondence: rule/item nullable flags, first "
-        "graph, left-recursive/leader flags of the model vs the implementation over grammars x permutations. On the "
+        "graph, left-recursive/leader flags of the model vs the implementation over grammars x permutations; the components "
+        "and left_recursive flags the REAL generator computed are validated, per (grammar, order), by the verified checker of "
+        "C16 (they are exactly the mutual-reachability classes of the real first graph / the rules on a cycle of it). On the "
         "implementation: flags equal across permutations, parse results equal across permutations on enumerated inputs, "
         "no RecursionError for grammars without recursion through lookahead operands.",
    design="6/C03", technique="Coq proof (simulation of the stateful visitor by its pure reading; least pre-fixed point) + table re-extraction + correspondence over permutations",
